@@ -96,6 +96,8 @@ func h14Make(variant, fv int) *h14Setup {
 		ignore = "b"
 	case 4:
 		row = ".name,/s" // a row key whose trailing field is missing for names without the sub-name
+	case 5:
+		table, row = "a", ".name" // residue of several fields: b, c and .fullname
 	}
 	filter, err := benchproc.NewFilter(h14Filters[fv])
 	if err != nil {
@@ -149,13 +151,15 @@ func h14SameCell(variant int, r1 h14Res, m1 int, r2 h14Res, m2 int) bool {
 		return h14Units[r.u1]
 	}
 	same := u(r1, m1) == u(r2, m2)
-	same = vndAnd(same, r1.c == r2.c)
-	same = vndAnd(same, r1.a == r2.a) // table key (.config) or column key (variant 2)
-	if variant != 3 {
+	if variant != 5 {
+		same = vndAnd(same, r1.c == r2.c)
+	}
+	same = vndAnd(same, r1.a == r2.a) // table key (.config, or a alone) or column key (variant 2)
+	if variant != 3 && variant != 5 {
 		same = vndAnd(same, r1.b == r2.b)
 	}
 	same = vndAnd(same, r1.nm == r2.nm)
-	if variant != 1 {
+	if variant != 1 && variant != 5 {
 		same = vndAnd(same, r1.s == r2.s)
 	}
 	if variant != 2 {
@@ -196,6 +200,19 @@ func h14Find(t *Tables, v float64) h14Loc {
 		}
 	}
 	return loc
+}
+
+// h14WarnNames returns the key names of a "benchmarks vary in a, b" warning in sorted order
+// (their order in the text follows the order in which the keys were first observed, which
+// legitimately depends on the order of configuration blocks).
+func h14WarnNames(w string) string {
+	names := strings.Split(strings.TrimPrefix(w, "benchmarks vary in "), ", ")
+	for i := 1; i < len(names); i++ {
+		for j := i; j > 0 && names[j] < names[j-1]; j-- {
+			names[j], names[j-1] = names[j-1], names[j]
+		}
+	}
+	return strings.Join(names, ",")
 }
 
 // H14Cells: one cell per measurement, true statistics, residue warnings.
@@ -265,9 +282,11 @@ func H14Cells() {
 					}
 				}
 			}
-			varyS := false
+			varyS, varyB, varyC := false, false, false
 			for _, r := range members {
 				varyS = vndOr(varyS, r.s != members[0].s)
+				varyB = vndOr(varyB, r.b != members[0].b)
+				varyC = vndOr(varyC, r.c != members[0].c)
 			}
 			warn := ""
 			for _, w := range cell.Sample.Warnings {
@@ -281,6 +300,27 @@ func H14Cells() {
 				if warn != "" {
 					vndReach("h14:residue-warning")
 					vndAssert(warn == "benchmarks vary in .fullname", "residue-warning-names-exactly-the-differing-keys")
+				}
+			} else if s.variant == 5 {
+				// table by a, rows by .name: b, c and the sub-name are in the residue
+				want := ""
+				for _, kv := range []struct {
+					vary bool
+					name string
+				}{{varyS, ".fullname"}, {varyB, "b"}, {varyC, "c"}} { // sorted by name
+					if kv.vary {
+						if want != "" {
+							want += ","
+						}
+						want += kv.name
+					}
+				}
+				if strings.Contains(want, ",") {
+					vndReach("h14:residue-warning-several")
+				}
+				vndAssert((warn == "") == (want == ""), "residue-warning-exactly-when-merged-results-differ-in-an-unprojected-key")
+				if warn != "" {
+					vndAssert(h14WarnNames(warn) == want, "residue-warning-names-exactly-the-differing-keys")
 				}
 			} else {
 				vndAssert(warn == "", "no-residue-warning-otherwise")
@@ -360,6 +400,14 @@ func H15Permute() {
 			}
 			vndAssert(same, "cell-content-independent-of-line-order")
 			vndAssert(ca.Summary.Center == cb.Summary.Center, "cell-summary-independent-of-line-order")
+			wa, wb := "", ""
+			for _, w := range ca.Sample.Warnings {
+				wa += h14WarnNames(w.Error()) + "|"
+			}
+			for _, w := range cb.Sample.Warnings {
+				wb += h14WarnNames(w.Error()) + "|"
+			}
+			vndAssert(wa == wb, "cell-warnings-independent-of-line-order")
 		}
 	}
 }
